@@ -122,6 +122,40 @@ example : SolverHyps cR cRE cEnv ∧ CombineSpec cR cRE cEnv ∧ ∀ op ∈ cCom
 example : ∀ x ∈ runComp cEnv { c := {}, w := { fes := [] } } [] cCompHist, JudgeOrGiveUp cEnv x.1 x.2.1 x.2.2 :=
   C12_composite_partial cHyps cCombineSpec false cCompHist cCompHist_ok
 
+/-! ### `simplify` does NOT keep the partition (the code as written; answers are not affected)
+
+A child's `variables` only grows: when `simplify()` rewrites `x + (y & ~y) < 3` to `x < 3` the child still lists `y`.  A later constraint
+connecting `x` with another child makes `_solver_for_names` combine the two; the combined child knows `x` and `z`, `_store_child`
+re-points those, `_solvers["y"]` keeps the old child alive — two children now share `x` (and the constraint `x < 3`).  Same
+observation as the open finding of C15 (overlapping parts from `split()`); replayed on the real classes CompositeFrontend and
+SolverComposite (design_notes/C12.md). -/
+
+def sCxy : Con := { id := 1, vars := [0, 1], sem := fun a => decide (a 0 % 256 < 3) }
+def sCx : Con := { id := 4, vars := [0], sem := fun a => decide (a 0 % 256 < 3) }
+def sCz : Con := { id := 2, vars := [2], sem := fun a => decide (a 2 % 256 < 9) }
+def sLink : Con := { id := 3, vars := [0, 2], sem := fun a => decide ((a 0 + 1) % 256 = a 2 % 256) }
+/-- a simplifier that is an equivalence and invents no variable: it drops the variable `sCxy` does not depend on -/
+def sEnv : Env :=
+  { dflt := fun _ => 0, oracle := fun _ _ => .unknown, build := fun _ => default, falseCon := default,
+    cheapFalse := fun _ _ _ => false, truth := fun _ _ _ => false,
+    simp := fun cs _ => cs.map fun c => if c.id = 1 then sCx else c, pick := fun all n _ => all.take n }
+
+def stateAfter (E : Env) : CSt → List Op → CSt
+  | s, [] => s
+  | s, op :: rest => stateAfter E (compStep E s op).2 rest
+
+/-- two different children of the list know a common variable -/
+def childrenOverlap (s : CSt) : Bool :=
+  s.c.solverList.any fun i => s.c.solverList.any fun j => i != j && (s.child i).variables.any (s.child j).variables.contains
+
+/-- the simplifier used is semantically the identity -/
+example : ∀ a, sCx.sem a = sCxy.sem a := fun _ => rfl
+
+/-- **witness**: add, add, simplify, add — the children then overlap; without the `simplify` they do not -/
+theorem C12_simplify_breaks_partition :
+    childrenOverlap (stateAfter sEnv {} [.add [sCxy], .add [sCz], .simplify, .add [sLink]]) = true ∧
+    childrenOverlap (stateAfter sEnv {} [.add [sCxy], .add [sCz], .add [sLink]]) = false := by decide +kernel
+
 /-- **The full statement**: every history of public calls on a CompositeFrontend (hence, with the mixin layers of C11 on top, on
 a SolverComposite) is answered as the property statement demands for all the constraints added.  Proved: `C12_composite_partial`
 (add, satisfiable()), given `CombineSpec`.  Missing:
